@@ -15,10 +15,8 @@ use mmtk::util::metadata::side_metadata::SideMetadataSpec;
 use mmtk::util::Address;
 
 pub const DATA_BASE: usize = 1 << 40;
-const WBYTES: usize = 3;
-const NBITS: usize = WBYTES * 8;
 
-fn field(w: &[u8; WBYTES], i: usize, b: usize) -> u8 {
+fn field<const W: usize>(w: &[u8; W], i: usize, b: usize) -> u8 {
     // b <= 3: fields never straddle a byte
     let p = i << b;
     let width = 1usize << b;
@@ -26,43 +24,45 @@ fn field(w: &[u8; WBYTES], i: usize, b: usize) -> u8 {
     if width == 8 { v } else { v & ((1u8 << width) - 1) }
 }
 
-struct WinCopy(pub [u8; WBYTES]);
-struct Setup {
+struct WinCopy<const W: usize>(pub [u8; W]);
+struct Setup<const W: usize> {
     sp: SideMetadataSpec,
-    win: WinCopy,
+    win: WinCopy<W>,
     b: usize,
     r: usize,
     nfields: usize,
     mapped: bool,
 }
 
-fn setup(s: &mut Src, b_lo: usize, b_hi: usize, r_lo: usize, r_hi: usize) -> Setup {
+fn setup<const W: usize>(s: &mut Src, b_lo: usize, b_hi: usize, r_lo: usize, r_hi: usize) -> Setup<W> {
     install_mmapper();
-    let b = s.any_usize();
-    let r = s.any_usize();
+    // concrete when the harness fixes the shape (symbolic-but-constrained values would turn every
+    // shift in the address arithmetic into a barrel shifter)
+    let b = if b_lo == b_hi { b_lo } else { s.any_usize() };
+    let r = if r_lo == r_hi { r_lo } else { s.any_usize() };
     s.assume(b >= b_lo && b <= b_hi && r >= r_lo && r <= r_hi);
     let sp = spec(0, b, r);
-    let bytes = s.any_bytes::<WBYTES>();
+    let bytes = s.any_bytes::<W>();
     let mut k = 0;
-    while k < WBYTES {
+    while k < W {
         unsafe { SWIN.0[k] = bytes[k] };
         k += 1;
     }
     swin_install(&sp, DATA_BASE);
     let win = WinCopy(bytes);
-    let nfields = NBITS >> b;
+    let nfields = (W * 8) >> b;
     let mapped = s.any_bool();
     unsafe {
         if mapped {
             MAPPED[0] = (DATA_BASE, DATA_BASE + (nfields << r));
-            MAPPED[1] = (swin_base(), swin_base() + WBYTES);
+            MAPPED[1] = (swin_base(), swin_base() + W);
         }
     }
     Setup { sp, win, b, r, nfields, mapped }
 }
 
-fn find_prev(s: &mut Src, b_lo: usize, b_hi: usize, r_lo: usize, r_hi: usize) {
-    let st = setup(s, b_lo, b_hi, r_lo, r_hi);
+fn find_prev<const W: usize>(s: &mut Src, b_lo: usize, b_hi: usize, r_lo: usize, r_hi: usize) {
+    let st = setup::<W>(s, b_lo, b_hi, r_lo, r_hi);
     let (b, r) = (st.b, st.r);
     let off = s.any_usize();
     let limit = s.any_usize();
@@ -90,8 +90,8 @@ fn find_prev(s: &mut Src, b_lo: usize, b_hi: usize, r_lo: usize, r_hi: usize) {
     cov!(s, "search limited to the region of the data address", want.is_none() && st.mapped && limit <= (1 << r));
 }
 
-fn find_next(s: &mut Src, b_lo: usize, b_hi: usize, r_lo: usize, r_hi: usize) {
-    let st = setup(s, b_lo, b_hi, r_lo, r_hi);
+fn find_next<const W: usize>(s: &mut Src, b_lo: usize, b_hi: usize, r_lo: usize, r_hi: usize) {
+    let st = setup::<W>(s, b_lo, b_hi, r_lo, r_hi);
     let (b, r) = (st.b, st.r);
     let off = s.any_usize();
     let limit = s.any_usize();
@@ -113,13 +113,13 @@ fn find_next(s: &mut Src, b_lo: usize, b_hi: usize, r_lo: usize, r_hi: usize) {
     }
     chk!(s, "find_next returns exactly what a region-by-region scan returns", got.map(|a| a.as_usize()) == want);
     cov!(s, "found in a later byte", want.is_some() && (((want.unwrap_or(0) - DATA_BASE) >> r) << b) >> 3 > (((off >> r) << b) >> 3));
-    cov!(s, "not found although a later bit is set", want.is_none() && st.mapped && st.win.0[WBYTES - 1] != 0);
+    cov!(s, "not found although a later bit is set", want.is_none() && st.mapped && st.win.0[W - 1] != 0);
     cov!(s, "unaligned data address", off & ((1 << r) - 1) != 0 || r == 0);
     cov!(s, "unmapped", !st.mapped);
 }
 
-fn scan(s: &mut Src, b_lo: usize, b_hi: usize, r_lo: usize, r_hi: usize) {
-    let st = setup(s, b_lo, b_hi, r_lo, r_hi);
+fn scan<const W: usize>(s: &mut Src, b_lo: usize, b_hi: usize, r_lo: usize, r_hi: usize) {
+    let st = setup::<W>(s, b_lo, b_hi, r_lo, r_hi);
     s.assume(st.mapped); // documented: the data address range must be fully mapped
     let (b, r) = (st.b, st.r);
     let first = s.any_usize();
@@ -142,7 +142,7 @@ fn scan(s: &mut Src, b_lo: usize, b_hi: usize, r_lo: usize, r_hi: usize) {
         all_valid &= aligned && {
             let p = i << b;
             let width = 1usize << b;
-            let v = bytes[(p >> 3) % WBYTES] >> (p & 7);
+            let v = bytes[(p >> 3) % W] >> (p & 7);
             (if width == 8 { v } else { v & ((1u8 << width) - 1) }) != 0
         };
         order_ok &= n == 0 || a > last;
@@ -151,7 +151,7 @@ fn scan(s: &mut Src, b_lo: usize, b_hi: usize, r_lo: usize, r_hi: usize) {
     });
     let mut want = 0usize;
     let mut i = 0;
-    while i < NBITS {
+    while i < W * 8 {
         if i < st.nfields && i >= first && i < first + count && field(&st.win.0, i, b) != 0 {
             want += 1;
         }
@@ -166,41 +166,45 @@ fn scan(s: &mut Src, b_lo: usize, b_hi: usize, r_lo: usize, r_hi: usize) {
     cov!(s, "a non-zero region just outside the range is not visited", first > 0 && field(&st.win.0, first - 1, b) != 0 && count > 0);
 }
 
-// VO-bit shape: 1 bit per 8-byte word.
+// VO-bit shape: 1 bit per 8-byte word.  Quick tier: 3-byte bitmap (byte and bit paths).
 pub fn c22_find_prev_vo(s: &mut Src) {
-    find_prev(s, 0, 0, 3, 3)
+    find_prev::<3>(s, 0, 0, 3, 3)
 }
 pub fn c22_find_next_vo(s: &mut Src) {
-    find_next(s, 0, 0, 3, 3)
+    find_next::<3>(s, 0, 0, 3, 3)
 }
 pub fn c22_scan_vo(s: &mut Src) {
-    scan(s, 0, 0, 3, 3)
+    scan::<3>(s, 0, 0, 3, 3)
 }
-// Other widths (2, 4, 8 bits) and region sizes.
+// Thorough tier: 9-byte bitmap = one aligned 8-byte word plus a tail byte (word-at-a-time path).
+pub fn c22_find_prev_vo_word(s: &mut Src) {
+    find_prev::<9>(s, 0, 0, 3, 3)
+}
+pub fn c22_find_next_vo_word(s: &mut Src) {
+    find_next::<9>(s, 0, 0, 3, 3)
+}
+pub fn c22_scan_vo_word(s: &mut Src) {
+    scan::<9>(s, 0, 0, 3, 3)
+}
+// Other widths (2, 4, 8 bits) and region sizes on a 3-byte table slice.
 pub fn c22_find_prev_multi(s: &mut Src) {
-    find_prev(s, 1, 3, 0, 6)
+    find_prev::<3>(s, 1, 3, 0, 6)
 }
 pub fn c22_find_next_multi(s: &mut Src) {
-    find_next(s, 1, 3, 0, 6)
+    find_next::<3>(s, 1, 3, 0, 6)
 }
 pub fn c22_scan_multi(s: &mut Src) {
-    scan(s, 1, 3, 0, 6)
-}
-// 1 bit per region for other region sizes (byte-granular up to 4 KiB).
-pub fn c22_find_prev_bit_regions(s: &mut Src) {
-    find_prev(s, 0, 0, 0, 12)
-}
-pub fn c22_find_next_bit_regions(s: &mut Src) {
-    find_next(s, 0, 0, 0, 12)
+    scan::<3>(s, 1, 3, 0, 6)
 }
 
 harnesses! {
     #[kani::unwind(26)] #[kani::stub(alloc::fmt::format, crate::env::stub_format)] #[kani::stub(mmtk::util::Address::load, crate::env::stub_addr_load)] #[kani::stub(mmtk::util::Address::is_mapped, crate::env::stub_is_mapped)] c22_find_prev_vo; // loops=in_metadata_bytes:5 timeout=900
     #[kani::unwind(26)] #[kani::stub(alloc::fmt::format, crate::env::stub_format)] #[kani::stub(mmtk::util::Address::load, crate::env::stub_addr_load)] #[kani::stub(mmtk::util::Address::is_mapped, crate::env::stub_is_mapped)] c22_find_next_vo; // loops=in_metadata_bytes:5 timeout=900
-    #[kani::unwind(26)] #[kani::stub(alloc::fmt::format, crate::env::stub_format)] #[kani::stub(mmtk::util::Address::load, crate::env::stub_addr_load)] #[kani::stub(mmtk::util::Address::is_mapped, crate::env::stub_is_mapped)] c22_scan_vo; // tier=wip loops=in_metadata_bytes:5+in_metadata_word:10 timeout=900
-    #[kani::unwind(26)] #[kani::stub(alloc::fmt::format, crate::env::stub_format)] #[kani::stub(mmtk::util::Address::load, crate::env::stub_addr_load)] #[kani::stub(mmtk::util::Address::is_mapped, crate::env::stub_is_mapped)] c22_find_prev_multi; // tier=wip timeout=1800 loops=in_metadata_bytes:5
-    #[kani::unwind(26)] #[kani::stub(alloc::fmt::format, crate::env::stub_format)] #[kani::stub(mmtk::util::Address::load, crate::env::stub_addr_load)] #[kani::stub(mmtk::util::Address::is_mapped, crate::env::stub_is_mapped)] c22_find_next_multi; // tier=wip timeout=1800 loops=in_metadata_bytes:5
-    #[kani::unwind(26)] #[kani::stub(alloc::fmt::format, crate::env::stub_format)] #[kani::stub(mmtk::util::Address::load, crate::env::stub_addr_load)] #[kani::stub(mmtk::util::Address::is_mapped, crate::env::stub_is_mapped)] c22_scan_multi; // tier=wip timeout=1800 loops=in_metadata_bytes:5+in_metadata_word:10
-    #[kani::unwind(26)] #[kani::stub(alloc::fmt::format, crate::env::stub_format)] #[kani::stub(mmtk::util::Address::load, crate::env::stub_addr_load)] #[kani::stub(mmtk::util::Address::is_mapped, crate::env::stub_is_mapped)] c22_find_prev_bit_regions; // tier=wip timeout=1800 loops=in_metadata_bytes:5
-    #[kani::unwind(26)] #[kani::stub(alloc::fmt::format, crate::env::stub_format)] #[kani::stub(mmtk::util::Address::load, crate::env::stub_addr_load)] #[kani::stub(mmtk::util::Address::is_mapped, crate::env::stub_is_mapped)] c22_find_next_bit_regions; // tier=wip timeout=1800 loops=in_metadata_bytes:5
+    #[kani::unwind(26)] #[kani::stub(alloc::fmt::format, crate::env::stub_format)] #[kani::stub(mmtk::util::Address::load, crate::env::stub_addr_load)] #[kani::stub(mmtk::util::Address::is_mapped, crate::env::stub_is_mapped)] c22_scan_vo; // loops=in_metadata_bytes:5+in_metadata_word:10 timeout=900
+    #[kani::unwind(74)] #[kani::stub(alloc::fmt::format, crate::env::stub_format)] #[kani::stub(mmtk::util::Address::load, crate::env::stub_addr_load)] #[kani::stub(mmtk::util::Address::is_mapped, crate::env::stub_is_mapped)] c22_find_prev_vo_word; // tier=thorough loops=in_metadata_bytes:11 timeout=2400
+    #[kani::unwind(74)] #[kani::stub(alloc::fmt::format, crate::env::stub_format)] #[kani::stub(mmtk::util::Address::load, crate::env::stub_addr_load)] #[kani::stub(mmtk::util::Address::is_mapped, crate::env::stub_is_mapped)] c22_find_next_vo_word; // tier=thorough loops=in_metadata_bytes:11 timeout=2400
+    #[kani::unwind(74)] #[kani::stub(alloc::fmt::format, crate::env::stub_format)] #[kani::stub(mmtk::util::Address::load, crate::env::stub_addr_load)] #[kani::stub(mmtk::util::Address::is_mapped, crate::env::stub_is_mapped)] c22_scan_vo_word; // tier=wip loops=in_metadata_bytes:11+in_metadata_word:66 timeout=2400
+    #[kani::unwind(26)] #[kani::stub(alloc::fmt::format, crate::env::stub_format)] #[kani::stub(mmtk::util::Address::load, crate::env::stub_addr_load)] #[kani::stub(mmtk::util::Address::is_mapped, crate::env::stub_is_mapped)] c22_find_prev_multi; // tier=thorough loops=in_metadata_bytes:5 timeout=2400
+    #[kani::unwind(26)] #[kani::stub(alloc::fmt::format, crate::env::stub_format)] #[kani::stub(mmtk::util::Address::load, crate::env::stub_addr_load)] #[kani::stub(mmtk::util::Address::is_mapped, crate::env::stub_is_mapped)] c22_find_next_multi; // tier=thorough loops=in_metadata_bytes:5 timeout=2400
+    #[kani::unwind(26)] #[kani::stub(alloc::fmt::format, crate::env::stub_format)] #[kani::stub(mmtk::util::Address::load, crate::env::stub_addr_load)] #[kani::stub(mmtk::util::Address::is_mapped, crate::env::stub_is_mapped)] c22_scan_multi; // tier=wip loops=in_metadata_bytes:5+in_metadata_word:10 timeout=2400
 }
